@@ -263,6 +263,14 @@ def n_cases(tier):
 def gen_case(rng, tier, index):
     r = rng.random()
     m = _gen_m(rng)
+    if rng.random() < 0.03:
+        fm = float(m)
+        k = rng.randint(1, 6)
+        vols = [round(rng.uniform(0.01, max(0.02, fm)), 2) for _ in range(k)]
+        if rng.random() < 0.8:
+            vols[rng.randrange(k)] = rng.choice([fm + 0.004, fm + 0.001, fm + 0.01, fm + 1.0, 2 * fm, math.nextafter(fm, math.inf) if fm > 1 else fm + 0.004])
+        return {"kind": "evo_step", "ep": rng.choice(["evo_aspirate", "evo_dispense"]), "m": m, "k": k, "vols": vols,
+                "auto_split": rng.random() < 0.5, "scalar": rng.random() < 0.5}
     if r < 0.43:
         return {"kind": "helper", "m": m, "vs": [_gen_v(rng, m, MAX_STEPS) for _ in range(BATCH)]}
     if r < 0.86:
@@ -335,8 +343,39 @@ def run_case(ctx, case):
         _run_rd(ctx, case)
     elif kind == "distribute":
         _run_distribute(ctx, case)
+    elif kind == "evo_step":
+        _run_evo_step(ctx, case)
     else:
         raise ValueError(kind)
+
+
+def _run_evo_step(ctx, case):
+    """EVO script commands are single steps that are never split: one above max_volume is refused
+    (InvalidOperationError), whatever auto_split says."""
+    import robotools
+
+    m = dec(case["m"])
+    k = int(case["k"])
+    vols = [float(x) for x in case["vols"]]
+    wl = robotools.EvoWorklist(max_volume=m, auto_split=bool(case["auto_split"]))
+    p = robotools.Labware("P", 8, 2, min_volume=0, max_volume=1e9, initial_volumes=1e8 if case["ep"] == "evo_aspirate" else 0)
+    wells = [f"{'ABCDEFGH'[i]}01" for i in range(k)]
+    v_arg = vols[0] if k == 1 and case.get("scalar") else list(vols)
+    exc = None
+    try:
+        getattr(wl, case["ep"])(p, wells, (10, 1), list(range(1, k + 1)), v_arg, "lc")
+    except Exception as e:
+        exc = e
+    over = [v for v in vols if fr(v) > fr(m) * (1 + REL)]
+    ctx.count("evo_steps:" + case["ep"])
+    ctx.case(case, bool(over))
+    det = lambda: {"call": case["ep"], "max_volume": m, "auto_split": case["auto_split"], "volumes": vols,
+                   "raised": repr(exc), "records": list(wl)}
+    if over:
+        ctx.count("evo_step_above_max_volume")
+        ok = isinstance(exc, robotools.InvalidOperationError)
+        _chk(ctx, "auto_split_off_refuses_oversized", ok, det)
+        _chk(ctx, "oversized_evo_step_emits_no_command", not any(isinstance(r, str) and r.startswith("B;") and len(r) > 2 for r in wl), det)
 
 
 def _make_wl(cls, case, m, auto):
